@@ -1,19 +1,17 @@
-"""Per-property check definitions. MANIFEST.json is generated from this file by bin/mkmanifest."""
+"""Per-property check definitions live in lib/props/Cxx.py (one file per property, each defining PROP).
+MANIFEST.json is generated from them by bin/mkmanifest."""
+import importlib.util
+import os
 
 PROPS = {}
-
-PROPS["C32"] = dict(
-    level="model_checking",
-    technique="TLA+ spec TTL.tla model-checked by TLC; every generated transition replayed into the real SetWithTTL/MapWithTTL and all observers compared (spec->code transition tour)",
-    design_ref="DESIGN.md §5 C32",
-    level_text="TLC explores every add/remove/query/clock-advance order for 2 items within the horizon, including the exact expiry instant, and checks PresentForTTL/ObserversAgree/NoResurrection on the model; each generated transition is then executed on the real generics.SetWithTTL and MapWithTTL under a fake clock and every query of both objects must agree with the model (either boundary convention is accepted as long as all queries agree).",
-    level_note="Exhaustive only within the bound (2 items, TTL 2 ticks, horizon 5-8 ticks); concurrency of the two objects' own mutexes is not explored; the fake clock (clockwork) is trusted.",
-    assumptions=["clockwork.FakeClock is faithful", "bounded: 2 items, TTL=2 ticks"],
-    stages=[dict(kind="walk", module="TTL", pkg="generics", test="TestVerifTTL",
-                 alternatives=[dict(name="closed", cfg={"quick": "MC_TTL_closed.cfg", "thorough": "MC_TTL_closed_big.cfg"}),
-                               dict(name="open", cfg={"quick": "MC_TTL_open.cfg", "thorough": "MC_TTL_open_big.cfg"})],
-                 budget={"quick": 30, "thorough": 240})],
-)
+_d = os.path.join(os.path.dirname(os.path.abspath(__file__)), "props")
+for _f in sorted(os.listdir(_d)):
+    if _f.endswith(".py") and _f[0] == "C":
+        _spec = importlib.util.spec_from_file_location("props_" + _f[:-3], os.path.join(_d, _f))
+        _m = importlib.util.module_from_spec(_spec)
+        _spec.loader.exec_module(_m)
+        if getattr(_m, "ENABLED", True):
+            PROPS[_f[:-3]] = _m.PROP
 
 HOOKS = dict(
     guard="verif",
